@@ -245,6 +245,20 @@ Section LTS.
                        ++ map (fun tb => Move i (t_label (fst tb))) (i_cur iv)
                        ++ map (fun t => Begin i (t_label t)) (i_todo iv)) (seq 0 (st_n st)).
   Definition enabled (st : state) (e : ev) : bool := match step st e with Some _ => true | None => false end.
+  (* the work left: 3 per (process, target) pair not yet started, 2 per pair whose command is about to
+     run, 1 per pair whose outputs are being replaced.  Proof/C31_Progress.v: every enabled event lowers
+     it, it is 0 exactly in the finished states. *)
+  Definition mu_cur (c : list (target * bool)) : nat :=
+    fold_right (fun (tb : target * bool) (a : nat) => (if snd tb then 1 else 2) + a) 0 c.
+  Definition mu_inv (iv : inv) : nat := 3 * length (i_todo iv) + mu_cur (i_cur iv).
+  Definition mu (st : state) : nat := list_sum (map (fun i => mu_inv (st_inv st i)) (seq 0 (st_n st))).
+  (* how many events of a schedule were enabled when their turn came (the others do nothing) *)
+  Fixpoint effective (st : state) (sched : list ev) : nat :=
+    match sched with
+    | [] => 0
+    | e :: rest => (if enabled st e then 1 else 0) + effective (apply st e) rest
+    end.
+
   Fixpoint drive (choices : list N) (fuel : nat) (st : state) : state :=
     match fuel with
     | O => st
